@@ -57,6 +57,13 @@ func runC13(c *core.Ctx) {
 	poolTypestate(c, "C13-POOL")
 	goRule(c)
 	unsafeRule(c, "C13-POOL")
+	// a result that shares memory with pooled storage is written by whichever goroutine gets that storage next: the
+	// encode-side ownership rules and the pool rules of C12 are race conditions here
+	c.MinInstances("C13-SHARED", 60)
+	importRulesFn(c, "C12", "C13-SHARED", func(sub *core.Ctx) {
+		ownEncodeRules(sub, newAliasAnalysis(sub.Prog), "C12-ENCODE")
+		poolRules(sub)
+	}, nil)
 	// positive fixture
 	overlay := map[string][]byte{c.Prog.Dir + "/packet/zz_verif_fixture.go": []byte(c13Fixture)}
 	fprog, err := load.LoadOverlay(c.Prog.Dir, "", overlay)
